@@ -22,6 +22,8 @@ type Frame struct {
 	Defers   []deferred
 	Params   []Val
 	Contract *Contract
+	EntryAlloc *Term            // allocation counter when the frame was entered (fresh() in the frame's loop invariants)
+	EntryHeap  map[string]*Term // heap when the frame was entered
 }
 
 type deferred struct {
@@ -127,7 +129,7 @@ func (st *State) clone() *State {
 	}
 	for _, f := range st.Frames {
 		nf := &Frame{Fn: f.Fn, Regs: make(map[ssa.Value]Val, len(f.Regs)), Cells: make(map[*ssa.Alloc]int, len(f.Cells)),
-			Active: make(map[*ssa.BasicBlock]*LoopCtx, len(f.Active)), Defers: append([]deferred(nil), f.Defers...), Params: f.Params, Contract: f.Contract}
+			Active: make(map[*ssa.BasicBlock]*LoopCtx, len(f.Active)), Defers: append([]deferred(nil), f.Defers...), Params: f.Params, Contract: f.Contract, EntryAlloc: f.EntryAlloc, EntryHeap: f.EntryHeap}
 		for k, v := range f.Regs {
 			nf.Regs[k] = v
 		}
@@ -460,7 +462,37 @@ func (e *Engine) elemClass(elemT types.Type, path string, l Leaf) string {
 func (e *Engine) noteKind(class string, l Leaf) {
 	if _, ok := e.classKinds[class]; !ok {
 		e.classKinds[class] = l.Kind
+		if l.Kind == LKInt {
+			if lo, hi, ok := intRange(l.Typ); ok {
+				blo, _ := new(big.Int).SetString(lo, 10)
+				bhi, _ := new(big.Int).SetString(hi, 10)
+				if blo.Sign() >= 0 {
+					// unsigned element/field type: its range is part of the type validity of every heap state
+					e.classRanges[class] = [2]*big.Int{blo, bhi}
+				}
+			}
+		}
 	}
+}
+
+// rangeAxiom: every value stored in the heap term h of an unsigned-integer class lies in the type's range.
+func (e *Engine) rangeAxiom(class string, h *Term) *Term {
+	rg, ok := e.classRanges[class]
+	if !ok {
+		return nil
+	}
+	tb := e.tb
+	r := tb.BoundVar("r", SInt)
+	switch h.Sort {
+	case SArrI:
+		v := tb.Select(h, r)
+		return tb.Forall([]*Term{r}, tb.And(tb.Le(tb.BigInt(rg[0]), v), tb.Le(v, tb.BigInt(rg[1]))), []*Term{v})
+	case SArr2I:
+		i := tb.BoundVar("i", SInt)
+		v := tb.Select(tb.Select(h, r), i)
+		return tb.Forall([]*Term{r, i}, tb.And(tb.Le(tb.BigInt(rg[0]), v), tb.Le(v, tb.BigInt(rg[1]))), []*Term{v})
+	}
+	return nil
 }
 
 // initAxiom states the well-formedness of the initial heap for reference-valued
@@ -468,6 +500,12 @@ func (e *Engine) noteKind(class string, l Leaf) {
 // is itself an object that existed at entry (or nil).
 func (e *Engine) initAxiom(st *State, class string, s Sort) {
 	k, ok := e.classKinds[class]
+	if ok && k == LKInt {
+		if ax := e.rangeAxiom(class, e.tb.Const("H!"+class, s)); ax != nil {
+			e.assumeQuiet(st, ax)
+		}
+		return
+	}
 	if !ok || (k != LKRef && k != LKSlArr) {
 		return
 	}
